@@ -23,3 +23,7 @@ pub mod util;
 
 #[cfg(test)]
 mod lookup_test;
+
+/// Read-only re-exports of crate-private items for the external verification harness in /verif.
+#[cfg(feature = "verif_hooks")]
+pub mod verif_hooks;
